@@ -37,8 +37,9 @@ type tok struct {
 	kind     tokKind
 	mand     bool // deleting / replacing / cutting before this token makes the definition fail for sure
 	numClass int
-	nlBefore bool // prefer a line end in the gap before this token (SG_ inside BO_)
-	start    int  // byte offsets in the emitted text
+	nlBefore bool   // prefer a line end in the gap before this token (SG_ inside BO_)
+	vclass   string // the parser passes this token to an X.Validate(): attrtype objtype access envtype sigvaltype msgid ident strident
+	start    int    // byte offsets in the emitted text
 	end      int
 	pos      scanner.Position
 }
@@ -80,6 +81,13 @@ func (d *srcDef) str(s string, mand bool) int {
 func (d *srcDef) mandIdent(s string) int {
 	i := d.add(kIdent, s)
 	d.toks[i].mand = true
+	d.toks[i].vclass = "ident"
+	return i
+}
+
+// marks token i as validated by the parser (class c); returns i
+func (d *srcDef) validated(i int, c string) int {
+	d.toks[i].vclass = c
 	return i
 }
 
@@ -673,7 +681,7 @@ func (g *gen) defMessage() *srcDef {
 	d := &srcDef{kind: "message"}
 	d.ident("BO_")
 	ids, id := g.genMessageID()
-	d.num(ids, numUint, true)
+	d.validated(d.num(ids, numUint, true), "msgid")
 	name := g.genIdent()
 	d.mandIdent(name)
 	d.punct(":", true)
@@ -707,14 +715,14 @@ func (g *gen) defSignalValueType() *srcDef {
 	d := &srcDef{kind: "sigvaltype"}
 	d.ident("SIG_VALTYPE_")
 	ids, id := g.genMessageID()
-	d.num(ids, numUint, true)
+	d.validated(d.num(ids, numUint, true), "msgid")
 	name := g.genIdent()
 	d.mandIdent(name)
 	if g.r.Intn(2) == 0 {
 		d.punct(":", false)
 	}
 	ts, t := g.genSmallUint(3)
-	d.num(ts, numUint, true)
+	d.validated(d.num(ts, numUint, true), "sigvaltype")
 	d.punct(";", true)
 	d.build = func(d *srcDef) dbc.Def {
 		return &dbc.SignalValueTypeDef{Pos: d.toks[0].pos, MessageID: id, SignalName: dbc.Identifier(name),
@@ -727,7 +735,7 @@ func (g *gen) defMessageTransmitters() *srcDef {
 	d := &srcDef{kind: "msgtx"}
 	d.ident("BO_TX_BU_")
 	ids, id := g.genMessageID()
-	d.num(ids, numUint, true)
+	d.validated(d.num(ids, numUint, true), "msgid")
 	d.punct(":", true)
 	var txs []string
 	for i, n := 0, g.r.Intn(4); i < n; i++ {
@@ -756,7 +764,7 @@ func (g *gen) defEnvVar() *srcDef {
 	e.Name = dbc.Identifier(name)
 	d.punct(":", true)
 	ts, t := g.genSmallUint(3)
-	d.num(ts, numUint, true)
+	d.validated(d.num(ts, numUint, true), "envtype")
 	e.Type = dbc.EnvironmentVariableType(t)
 	d.punct("[", true)
 	fs, f := g.genFloat()
@@ -777,7 +785,7 @@ func (g *gen) defEnvVar() *srcDef {
 	d.num(is, numUint, true)
 	e.ID = iv
 	acc := accessTypes[g.r.Intn(4)]
-	d.mandIdent(acc)
+	d.validated(d.mandIdent(acc), "access")
 	e.AccessType = dbc.AccessType(acc)
 	n := 1 + g.r.Intn(3)
 	for i := 0; i < n; i++ {
@@ -822,29 +830,29 @@ func (g *gen) objectRef(d *srcDef, typeMand bool) objRef {
 	switch g.r.Intn(5) {
 	case 0:
 		o.ot = dbc.ObjectTypeNetworkNode
-		i := d.ident("BU_")
+		i := d.validated(d.ident("BU_"), "objtype")
 		d.toks[i].mand = typeMand
 		o.node = g.genIdent()
 		d.mandIdent(o.node)
 	case 1:
 		o.ot = dbc.ObjectTypeMessage
-		i := d.ident("BO_")
+		i := d.validated(d.ident("BO_"), "objtype")
 		d.toks[i].mand = typeMand
 		var s string
 		s, o.id = g.genMessageID()
-		d.num(s, numUint, true)
+		d.validated(d.num(s, numUint, true), "msgid")
 	case 2:
 		o.ot = dbc.ObjectTypeSignal
-		i := d.ident("SG_")
+		i := d.validated(d.ident("SG_"), "objtype")
 		d.toks[i].mand = typeMand
 		var s string
 		s, o.id = g.genMessageID()
-		d.num(s, numUint, true)
+		d.validated(d.num(s, numUint, true), "msgid")
 		o.sig = g.genIdent()
 		d.mandIdent(o.sig)
 	case 3:
 		o.ot = dbc.ObjectTypeEnvironmentVariable
-		i := d.ident("EV_")
+		i := d.validated(d.ident("EV_"), "objtype")
 		d.toks[i].mand = typeMand
 		o.ev = g.genIdent()
 		d.mandIdent(o.ev)
@@ -877,16 +885,16 @@ func (g *gen) defAttribute() *srcDef {
 	a := &dbc.AttributeDef{}
 	switch g.r.Intn(5) {
 	case 0:
-		d.ident("BU_")
+		d.validated(d.ident("BU_"), "objtype")
 		a.ObjectType = dbc.ObjectTypeNetworkNode
 	case 1:
-		d.ident("BO_")
+		d.validated(d.ident("BO_"), "objtype")
 		a.ObjectType = dbc.ObjectTypeMessage
 	case 2:
-		d.ident("SG_")
+		d.validated(d.ident("SG_"), "objtype")
 		a.ObjectType = dbc.ObjectTypeSignal
 	case 3:
-		d.ident("EV_")
+		d.validated(d.ident("EV_"), "objtype")
 		a.ObjectType = dbc.ObjectTypeEnvironmentVariable
 	}
 	var name string
@@ -899,13 +907,13 @@ func (g *gen) defAttribute() *srcDef {
 	default:
 		name = g.attrName()
 	}
-	d.str(`"`+name+`"`, true)
+	d.validated(d.str(`"`+name+`"`, true), "strident")
 	a.Name = dbc.Identifier(name)
 	info := &attrInfo{}
 	switch g.r.Intn(5) {
 	case 0, 1:
 		info.typ = []string{"INT", "HEX"}[g.r.Intn(2)]
-		d.mandIdent(info.typ)
+		d.validated(d.mandIdent(info.typ), "attrtype")
 		if g.r.Intn(4) != 0 {
 			s, v := g.genInt()
 			d.num(s, numFloat, true)
@@ -916,7 +924,7 @@ func (g *gen) defAttribute() *srcDef {
 		}
 	case 2:
 		info.typ = "FLOAT"
-		d.mandIdent("FLOAT")
+		d.validated(d.mandIdent("FLOAT"), "attrtype")
 		if g.r.Intn(4) != 0 {
 			s, v := g.genFloat()
 			d.num(s, numFloat, true)
@@ -927,10 +935,10 @@ func (g *gen) defAttribute() *srcDef {
 		}
 	case 3:
 		info.typ = "STRING"
-		d.mandIdent("STRING")
+		d.validated(d.mandIdent("STRING"), "attrtype")
 	case 4:
 		info.typ = "ENUM"
-		d.mandIdent("ENUM")
+		d.validated(d.mandIdent("ENUM"), "attrtype")
 		// 1..4 (one in four: 1..10) values in generation order (= no particular order), duplicates allowed
 		n := 1 + g.r.Intn(4)
 		if g.r.Intn(4) == 0 {
